@@ -38,6 +38,12 @@ func (c *Ctx) Core() *Universe {
 			fatal(c, fmt.Errorf("expected >= %d module packages, got %d", len(corePkgs), len(u.Pkgs)))
 		}
 		c.core = u
+		if len(u.overlay) > 0 {
+			// the compiler inventory (C05.index / C10.index) must see the same text as the analysis
+			if path, err := writeOverlayFiles(filepath.Join(c.Verif, "evidence", "remerged"), c.Repo, u.overlay); err == nil {
+				bceOverlay[c.Repo] = path
+			}
+		}
 		c.R.count("packages_core", len(u.Pkgs))
 	}
 	return c.core
